@@ -651,3 +651,58 @@ CONTRACTS[ST + 'random_pauli_map'] = dict(
              'forall(a, 0, 2 * N, forall(c, 0, 2 * N, implies(c != 2 * (a // 2) and c != 2 * (a // 2) + 1, result.gs[a][c] == 0)))'],
     modifies=[], returns=CMAP,
 )
+
+# ------------------------------------------------------------------ C10: backward of a map gate = (masked) transformation by the inverse table
+# (the gate caches the inverse in self.backward_map; "if False and self.n == obj.N" in the source makes backward always take the masked path)
+_inv_post = [e.replace('result.', 'self.backward_map.').replace('self.gs', 'self.forward_map.gs').replace('self.ps', 'self.forward_map.ps')
+             for e in CONTRACTS[ST + 'CliffordMap.inverse']['ensures'][:7]]
+CONTRACTS[CI + 'CliffordGate.backward#map_local'] = dict(
+    params=[('self', GATE_MAP_L), ('obj', PLIST)],
+    requires=['cols(obj.gs) % 2 == 0', 'len(self.qubits) >= 1',
+              'forall(k, 0, len(self.qubits), 0 <= self.qubits[k] < cols(obj.gs) // 2)', 'len(obj.ps) == rows(obj.gs)',
+              'rows(self.forward_map.gs) == %s' % _cntL, 'cols(self.forward_map.gs) == %s' % _cntL, 'rows(self.forward_map.gs) >= 1',
+              'len(self.forward_map.ps) == rows(self.forward_map.gs)', 'bits2(self.forward_map.gs)'],
+    ensures=[_gate_local(e).replace('self.forward_map.', 'self.backward_map.') for e in _tm['ensures'][3:6]] + _inv_post + ['same_loc(result, obj)'],
+    may_raise=['ValueError'],
+    modifies=['obj.gs', 'obj.ps'], modifies_scalar=['self.backward_map'], returns='=obj',
+)
+
+# ------------------------------------------------------------------ C18 / C02: clifford_rotation_gate(G) is the local gate of G restricted to its support
+_rgN = '(len(generator.g) // 2)'
+_rgSM = 'SuppMask(generator.g, %s)' % _rgN
+_rgQM = 'QMask(result.qubits, len(result.qubits), %s)' % _rgN
+CONTRACTS[CI + 'clifford_rotation_gate#noqubits'] = dict(
+    params=[('generator', dict(PAULI, exact=False)), ('qubits', 'none')], defaults={'qubits': None},
+    requires=['len(generator.g) % 2 == 0', 'bits1(generator.g)'],
+    ensures=['result.n == MaskCnt(%s, %s)' % (_rgSM, _rgN), 'len(result.qubits) == result.n',
+             'forall(k, 0, result.n, result.qubits[k] == MaskIdx(%s, %s)[k])' % (_rgSM, _rgN),
+             'forall(k, 0, result.n, 0 <= result.qubits[k] < %s)' % _rgN,
+             'len(result.generator.g) == MaskCnt(Repeat2(%s), len(generator.g))' % _rgSM,
+             'forall(k, 0, len(result.generator.g), result.generator.g[k] == Compress(generator.g, Repeat2(%s), len(generator.g))[k])' % _rgSM,
+             'result.generator.p == generator.p', 'bits1(result.generator.g)',
+             # the gate's mask is the support, and the condensed generator padded back onto the register IS the generator:
+             'forall(c, 0, %s, %s[c] == %s[c])' % (_rgN, _rgQM, _rgSM),
+             'forall(c, 0, len(generator.g), Expand(result.generator.g, Repeat2(%s), len(generator.g))[c] == generator.g[c])' % _rgQM],
+    modifies=[], returns=GATE_GEN_L,
+    hints={'return': [
+        ('lemma', 'mask_index', [_rgSM, _rgN]),
+        ('lemma', 'mask_index', ['Repeat2(%s)' % _rgSM, 'len(generator.g)']),
+        ('forall_lemma', [('c', '0', _rgN)], 'inq_exists', ['result.qubits', 'len(result.qubits)', 'c']),
+        ('forall_lemma', [('k', '0', 'len(result.qubits)')], 'inq_member', ['result.qubits', 'len(result.qubits)', 'k'], {'trigger': 'result.qubits[k]'}),
+        ('assert', 'forall(c, 0, %s, %s[c] == %s[c])' % (_rgN, _rgQM, _rgSM)),
+        ('assert_from', 'forall(c, 0, len(generator.g), Repeat2(%s)[c] == Repeat2(%s)[c])' % (_rgQM, _rgSM),
+         ['forall(c, 0, %s, %s[c] == %s[c])' % (_rgN, _rgQM, _rgSM), 'len(generator.g) % 2 == 0']),
+        ('lemma', 'mask_ext', ['Repeat2(%s)' % _rgQM, 'Repeat2(%s)' % _rgSM, 'len(generator.g)']),
+        ('lemma', 'mask_index', ['Repeat2(%s)' % _rgQM, 'len(generator.g)']),
+        ('assert_from', 'forall(c, 0, len(generator.g), implies(Repeat2(%s)[c] == 0, generator.g[c] == 0))' % _rgSM, ['len(generator.g) % 2 == 0']),
+        ('assert_from', 'forall(c, 0, len(generator.g), Expand(result.generator.g, Repeat2(%s), len(generator.g))[c] == generator.g[c])' % _rgQM,
+         ['forall(c, 0, len(generator.g), Repeat2(%s)[c] == Repeat2(%s)[c])' % (_rgQM, _rgSM),
+          'forall(c, 0, len(generator.g) + 1, MaskPos(Repeat2(%s), len(generator.g))[c] == MaskPos(Repeat2(%s), len(generator.g))[c])' % (_rgQM, _rgSM),
+          'forall(k, 0, len(result.generator.g), result.generator.g[k] == generator.g[MaskIdx(Repeat2(%s), len(generator.g))[k]])' % _rgSM,
+          'forall(c, 0, len(generator.g), implies(Repeat2(%(m)s)[c] != 0, 0 <= MaskPos(Repeat2(%(m)s), len(generator.g))[c] and '
+          'MaskPos(Repeat2(%(m)s), len(generator.g))[c] < MaskCnt(Repeat2(%(m)s), len(generator.g)) and '
+          'MaskIdx(Repeat2(%(m)s), len(generator.g))[MaskPos(Repeat2(%(m)s), len(generator.g))[c]] == c))' % dict(m=_rgSM),
+          'forall(c, 0, len(generator.g), implies(Repeat2(%s)[c] == 0, generator.g[c] == 0))' % _rgSM,
+          'len(result.generator.g) == MaskCnt(Repeat2(%s), len(generator.g))' % _rgSM]),
+    ]},
+)
